@@ -247,11 +247,21 @@ func (l *mapLoop) outerContainer(v ssa.Value, depth int) ssa.Value {
 // isCommutativeUpdate: v (the back-edge value of a header phi) is phi <op> x with a commutative,
 // associative numeric/boolean operator, or a constant.
 func commutativeUpdate(phi *ssa.Phi, v ssa.Value, depth int) bool {
-	if depth > 4 {
+	return commutativeUpdateV(phi, v, depth, map[ssa.Value]bool{ssa.Value(phi): true})
+}
+
+// commutativeUpdateV: acc holds the phis that stand for the accumulator on the way (the header phi, the header
+// phis of nested loops and the merge phis of conditionals inside the body): `ret` summed up in a nested loop under
+// a condition is still a commutative accumulation.
+func commutativeUpdateV(phi *ssa.Phi, v ssa.Value, depth int, acc map[ssa.Value]bool) bool {
+	if depth > 10 {
 		return false
 	}
-	if v == ssa.Value(phi) {
+	if acc[v] {
 		return true
+	}
+	free := func(e ssa.Value) bool {
+		return !core.Mentions(e, func(x ssa.Value) bool { return acc[x] })
 	}
 	switch x := v.(type) {
 	case *ssa.Const:
@@ -264,13 +274,14 @@ func commutativeUpdate(phi *ssa.Phi, v ssa.Value, depth int) bool {
 			}
 			fallthrough
 		case token.MUL, token.OR, token.AND, token.XOR, token.LOR, token.LAND:
-			return commutativeUpdate(phi, x.X, depth+1) && !mentionsPhi(x.Y, phi) || commutativeUpdate(phi, x.Y, depth+1) && !mentionsPhi(x.X, phi)
+			return commutativeUpdateV(phi, x.X, depth+1, acc) && free(x.Y) || commutativeUpdateV(phi, x.Y, depth+1, acc) && free(x.X)
 		case token.SUB:
-			return commutativeUpdate(phi, x.X, depth+1) && !mentionsPhi(x.Y, phi)
+			return commutativeUpdateV(phi, x.X, depth+1, acc) && free(x.Y)
 		}
 	case *ssa.Phi:
+		acc[x] = true
 		for _, e := range x.Edges {
-			if !commutativeUpdate(phi, e, depth+1) {
+			if !commutativeUpdateV(phi, e, depth+1, acc) {
 				return false
 			}
 		}
